@@ -15,7 +15,7 @@ import (
 // not already meet the clique bound, and what it explores depends on the node
 // order of the graph. Such graphs do not exist below 8 nodes and are rare below
 // 13, so this sub-check draws graphs of 11..16 nodes in the density range where
-// the heuristic is most often sub-optimal (G(n,p), p in 0.35..0.65), Mycielski
+// the heuristic is most often sub-optimal (G(n,p), p in 0.35..0.70), Mycielski
 // constructions and crown graphs with extra edges, computes the chromatic
 // number independently (exact backtracking in the harness) and calls
 // DsaturExact several times on the same graph under different, case-determined
@@ -158,16 +158,35 @@ func drawColExact(t *rapid.T) colExactCase {
 	switch cls := rapid.IntRange(0, 9).Draw(t, "cls"); {
 	case cls < 7:
 		c.Cls = "gnp"
+		// Measured against a pruning error in the exact search: the share of
+		// graphs whose result depends on the branch and bound grows from
+		// ~0.1% at n=11..12 to ~2% at n=15..16 and peaks at densities 0.5..0.7.
 		n := rapid.IntRange(11, 16).Draw(t, "n")
-		if rapid.IntRange(0, 3).Draw(t, "big") > 0 {
-			n = rapid.IntRange(13, 16).Draw(t, "nbig")
+		if rapid.IntRange(0, 4).Draw(t, "big") > 0 {
+			n = rapid.IntRange(14, 16).Draw(t, "nbig")
 		}
-		pct := rapid.IntRange(35, 65).Draw(t, "pct")
+		pct := rapid.IntRange(35, 70).Draw(t, "pct")
+		if rapid.Bool().Draw(t, "dense") {
+			pct = rapid.IntRange(50, 68).Draw(t, "pctdense")
+		}
 		c.N = n
-		for u := 0; u < n; u++ {
-			for v := u + 1; v < n; v++ {
-				if coin(t, pct) {
-					c.E = append(c.E, [2]int{u, v})
+		if rapid.IntRange(0, 3).Draw(t, "drawn") == 0 {
+			// edge by edge (shrinkable, but rapid's integer draws are not uniform)
+			for u := 0; u < n; u++ {
+				for v := u + 1; v < n; v++ {
+					if coin(t, pct) {
+						c.E = append(c.E, [2]int{u, v})
+					}
+				}
+			}
+		} else {
+			// a true G(n,p) sample expanded from a drawn seed, stored in the case
+			r := vk.NewSplitMix(rapid.Uint64().Draw(t, "gseed"))
+			for u := 0; u < n; u++ {
+				for v := u + 1; v < n; v++ {
+					if r.Intn(100) < pct {
+						c.E = append(c.E, [2]int{u, v})
+					}
 				}
 			}
 		}
